@@ -166,7 +166,7 @@ Proof.
   destruct res; try (inversion H; fail); exact (IH _ _ _ _ Hok1 H).
 Qed.
 
-Lemma fold_remove_ok vals : forall sealed n, tables_ok n -> tables_ok (fold_left (fun n fid => remove_nonce n fid vals) sealed n).
+Lemma fold_remove_ok : forall sealed n, tables_ok n -> tables_ok (fold_left (fun n fid => remove_nonce n fid (map fst n)) sealed n).
 Proof. induction sealed as [|fid r IH]; intros n Hok; simpl; [exact Hok|]. apply IH. apply remove_nonce_ok. exact Hok. Qed.
 
 Lemma fold_add_ok vals : forall fresh n, tables_ok n -> tables_ok (fold_left (fun n fid => add_zero_nonce n fid vals) fresh n).
